@@ -209,7 +209,7 @@ def check(repo: Repo, R) -> None:
     R.check(battrs <= hb, rule, key_of(fb, "kinds"), fb.site, f"Bundle._add has a container for every BundleAttr kind: {sorted(hb)} ⊇ {sorted(battrs)}", why="an attribute kind is stored nowhere")
 
     # ---- 7 freeze guards are live
-    c02.dead_guards(repo, R, "C18.7-freeze-guards-live", [("_elaborated", "Module", F_MODULE), ("_elaborated", "Bundle", F_BUNDLE)])
+    R.run(c02.dead_guards, repo, R, "C18.7-freeze-guards-live", [("_elaborated", "Module", F_MODULE), ("_elaborated", "Bundle", F_BUNDLE)])
     R.floor("C18.1-reused-name-evicted", 2)
     R.floor("C18.2-reserved-names-complete", 6)
     R.floor("C18.3-module-bundle-siblings", 10)
